@@ -54,3 +54,4 @@ open Neutrino.VerifyFilter in
 #print axioms C03_hard_scan_from_zero
 #print axioms C03_hard_scan_from_tip_counterexample
 #print axioms C03_checkpoints_resume
+#print axioms C03_resume_source_facts
